@@ -372,7 +372,7 @@ class IkeSa(object):
         # response and without touching any state.
         if self.peer_crypto is not None and not message.protected:
             if (message.exchange_type == Message.Exchange.IKE_SA_INIT and message.is_request
-                    and message.message_id == self.peer_msg_id - 1):
+                    and message.message_id == 0 and self.peer_msg_id == 1):
                 self.log_warning('Retransmission of IKE_SA_INIT request detected. Sending last sent message')
                 return self.last_sent_response_data
             self.log_warning('Received an unprotected message for an IKE_SA that has keys. Ignoring')
